@@ -23,7 +23,7 @@ RULE = (
     "(state hash, format, prior, k, mode, durability variant)."
 )
 
-PRIORS = ("none", "good", "good+bak", "good+tmp", "good+bak+tmp", "good+bigtmp", "good+symlink")
+PRIORS = ("none", "good", "good+bak", "good+tmp", "good+bak+tmp", "good+bigtmp", "good+symlink", "good+relname")
 MODES = ("crash_before", "crash_after", "fail")
 
 
@@ -83,6 +83,8 @@ class Setup:
             self.files[os.path.basename(self.tmpfile)] = big_bytes
         elif "tmp" in prior:
             self.files[os.path.basename(self.tmpfile)] = stale_bytes[: len(stale_bytes) // 2]
+        if "relname" in prior:
+            self.path = os.path.basename(self.path)  # the working directory is `tmp` while this prior is enumerated
 
     def new_gateway(self):
         """In-memory gateway holding S1 (old + extra), persistence pointing at the file."""
@@ -245,8 +247,11 @@ def second_save_faults(setup, s1, snapshot, drv, where, case, stats):
 
 
 def check_case(case, stats=None, priors=PRIORS, only=None, collect=None, part=(0, 1)):
-    with persist.Scratch() as tmp:
+    cwd = os.getcwd()
+    with persist.Scratch() as tmp, _Back(cwd):
         for prior in priors:
+            # "relname": the application names the file relative to its working directory (the README does)
+            os.chdir(tmp if "relname" in prior else cwd)
             try:
                 setup = Setup(case, prior, tmp)
             except Exception as exc:  # pylint: disable=broad-except
@@ -276,6 +281,18 @@ def check_case(case, stats=None, priors=PRIORS, only=None, collect=None, part=(0
                             raise
                         if len(collect) < 25:
                             collect.append(v)
+
+
+class _Back:
+    def __init__(self, cwd):
+        self.cwd = cwd
+
+    def __enter__(self):
+        return self
+
+    def __exit__(self, *exc):
+        os.chdir(self.cwd)
+        return False
 
 
 PARTS = 4
